@@ -8,7 +8,7 @@ from rtverif.props.c01 import rel_for
 from rtverif.props.c04 import sig_text, sig_from_json
 
 SEMS = ('standard', 'output_robustness', 'input_robustness', 'output_vacuity', 'input_vacuity')
-KINDS = ('dt_off', 'dt_on', 'ct_off', 'ct_on')
+KINDS = ('dt_off', 'dt_on', 'ct_off', 'ct_on', 'dt_on_pastified', 'ct_on_pastified')
 INF = float('inf')
 
 
@@ -79,6 +79,20 @@ class C06(Prop):
         if rng.random() < 0.15:
             c.untyped = 0.2
         f = lang.gen_formula(rng, c)
+        if kind.endswith('pastified'):
+            from rtverif import pastmodel
+            c.unbounded_future = False
+            c.prevnext = False
+            c.max_depth = min(c.max_depth, 3)
+            if kind.startswith('ct'):
+                c.timed_since_until = False
+            for _ in range(200):
+                f = lang.gen_formula(rng, c)
+                if 0 < lang.horizon(f) <= 6 and not pastmodel.past_over_future(f) and not (
+                        kind.startswith('ct') and lang.ops_of(f) & set(['until', 'unless'])):
+                    break
+            else:
+                f = lang.N('eventually', lang.N('geq', lang.V(c.vars[0]), lang.C(1.0)), ivl=(0, c.bound_step * 2))
         names = lang.variables(f) or [c.vars[0]]
         io = {}
         for vname in names:
@@ -89,9 +103,10 @@ class C06(Prop):
                 io[vname] = 'output'
         case = {'formula': f, 'kind': kind, 'sem': rng.choice(SEMS), 'io': io}
         if kind.startswith('dt'):
-            case['data'] = lang.gen_trace(rng, names, rng.randint(1, 14))
+            case['data'] = lang.gen_trace(rng, names, rng.randint(1, 14) + (lang.horizon(f) if kind.endswith('pastified')
+                                                                          else 0))
         else:
-            if kind == 'ct_on':
+            if kind in ('ct_on', 'ct_on_pastified'):
                 base = lang.gen_signal(rng, n=rng.randint(2, 7), start=Fr(0))
                 sig = dict((k, [(t, rng.choice(lang.SMALL)) for (t, _) in base]) for k in names)
             else:
@@ -103,11 +118,11 @@ class C06(Prop):
         sd = {'text': text, 'vars': names, 'semantics': sem, 'io': io}
         if kind == 'dt_off':
             return drive.values(drive.Mon('dt', sd).evaluate(drive.dt_dataset(data)))
-        if kind == 'dt_on':
-            m = drive.Mon('dt', sd)
+        if kind in ('dt_on', 'dt_on_pastified'):
+            m = drive.Mon('dt', sd, pastify=kind.endswith('pastified'))
             n = len(data[names[0]])
             return [m.update(i, [(k, data[k][i]) for k in names]) for i in range(n)]
-        m = drive.Mon('ct', sd)
+        m = drive.Mon('ct', sd, pastify=kind.endswith('pastified'))
         if kind == 'ct_off':
             return m.evaluate(*drive.ct_args(sig, names))
         n = len(sig[names[0]])
@@ -133,7 +148,13 @@ class C06(Prop):
                 data = case['data']
                 names = sorted(data)
                 n = len(data[names[0]])
-                exp = refd.evaluate(f, data, n, pred_hook=hook_discrete(sem, io))
+                if kind == 'dt_on_pastified':
+                    h = lang.horizon(f)
+                    hk = hook_discrete(sem, io)
+                    exp = [refd.evaluate(f, data, i + 1, pred_hook=hk)[i - h] if i >= h else float('nan')
+                           for i in range(n)]
+                else:
+                    exp = refd.evaluate(f, data, n, pred_hook=hook_discrete(sem, io))
             else:
                 sig = sig_from_json(case['signals'])
                 names = sorted(sig)
@@ -147,6 +168,7 @@ class C06(Prop):
             v.bad('raises:' + type(e).__name__, '%s [%s, %s, io=%s]: raised %s: %s' % (
                 text, kind, sem, io, type(e).__name__, e))
             return v
+        got_raw = got
         what = '%s [%s, %s, io=%s] on %s' % (text, kind, sem, io, case.get('data') or case.get('signals'))
         if not dense:
             i = next((i for i in range(n) if exp[i] == exp[i] and not refd.same(got[i], exp[i], rel)), None)
@@ -157,6 +179,9 @@ class C06(Prop):
         else:
             start = max(s[0][0] for s in sig.values())
             end = min(s[-1][0] for s in sig.values())
+            if kind == 'ct_on_pastified':
+                hh = float(lang.horizon(f))
+                got = [[s[0] - hh, s[1]] for s in got]
             fin = [s for s in got if s[0] == s[0] and abs(s[0]) != INF]
             if not fin:
                 if kind == 'ct_off':
@@ -185,9 +210,9 @@ class C06(Prop):
             except Exception as e:
                 v.bad('raises:' + type(e).__name__, '%s: flipped io raised %s' % (what, type(e).__name__))
                 return v
-            if repr(got2) != repr(got):
+            if repr(got2) != repr(got_raw):
                 v.bad('standard-depends-on-io', '%s: result changes when the io types are flipped: %s vs %s' % (
-                    what, repr(got)[:200], repr(got2)[:200]))
+                    what, repr(got_raw)[:200], repr(got2)[:200]))
         return v
 
     def origin_known(self, case, names, sig, kind, sem, io, rel):
